@@ -41,10 +41,13 @@ Init ==
   /\ restarts = 0
   /\ rhist = <<>>
 
+\* Values count up (first definition 1, every replacement the next one, at most 3): the view hides the history,
+\* and this way a state holding value 2 can only be reached through a replacement.
 \* adding an existing id replaces the definition; token and history belong to the id and stay
-JobAdd(j, v) ==
-  /\ jobs' = [jobs EXCEPT ![j] = [present |-> TRUE, v |-> v, paused |-> FALSE, ran |-> @.ran]]
-  /\ Log([a |-> "jobadd", id |-> j, v |-> v]) /\ UNCHANGED <<provs, conts, dss, restarts>>
+JobAdd(j) ==
+  /\ jobs[j].v < 3
+  /\ jobs' = [jobs EXCEPT ![j] = [present |-> TRUE, v |-> @.v + 1, paused |-> FALSE, ran |-> @.ran]]
+  /\ Log([a |-> "jobadd", id |-> j, v |-> jobs[j].v + 1]) /\ UNCHANGED <<provs, conts, dss, restarts>>
 JobDel(j) ==
   /\ jobs[j].present
   /\ jobs' = [jobs EXCEPT ![j] = NoJob]
@@ -61,12 +64,12 @@ JobReset(j) ==
   /\ jobs[j].present /\ jobs[j].ran
   /\ Log([a |-> "jobreset", id |-> j]) /\ UNCHANGED <<jobs, provs, conts, dss, restarts>>
 
-ProvPut(p, v) == /\ provs' = [provs EXCEPT ![p] = v]
-                 /\ Log([a |-> "provput", id |-> p, v |-> v]) /\ UNCHANGED <<jobs, conts, dss, restarts>>
+ProvPut(p) == /\ provs[p] < 3 /\ provs' = [provs EXCEPT ![p] = @ + 1]
+              /\ Log([a |-> "provput", id |-> p, v |-> provs[p] + 1]) /\ UNCHANGED <<jobs, conts, dss, restarts>>
 ProvDel(p) == /\ provs[p] # 0 /\ provs' = [provs EXCEPT ![p] = 0]
               /\ Log([a |-> "provdel", id |-> p]) /\ UNCHANGED <<jobs, conts, dss, restarts>>
-ContPut(c, v) == /\ conts' = [conts EXCEPT ![c] = v]
-                 /\ Log([a |-> "contput", id |-> c, v |-> v]) /\ UNCHANGED <<jobs, provs, dss, restarts>>
+ContPut(c) == /\ conts[c] < 3 /\ conts' = [conts EXCEPT ![c] = @ + 1]
+              /\ Log([a |-> "contput", id |-> c, v |-> conts[c] + 1]) /\ UNCHANGED <<jobs, provs, dss, restarts>>
 ContDel(c) == /\ conts[c] # 0 /\ conts' = [conts EXCEPT ![c] = 0]
               /\ Log([a |-> "contdel", id |-> c]) /\ UNCHANGED <<jobs, provs, dss, restarts>>
 \* creating a dataset that exists changes nothing (the settings of the first creation stay)
@@ -80,10 +83,10 @@ Restart == /\ restarts < 2 /\ rhist # <<>> /\ rhist[Len(rhist)].a # "restart"
 
 Next ==
   /\ Len(rhist) < MaxSteps
-  /\ \/ \E j \in JobIds : (\E v \in 1..2 : JobAdd(j, v)) \/ JobDel(j) \/ JobPause(j, TRUE) \/ JobPause(j, FALSE)
+  /\ \/ \E j \in JobIds : JobAdd(j) \/ JobDel(j) \/ JobPause(j, TRUE) \/ JobPause(j, FALSE)
                            \/ JobRun(j) \/ JobReset(j)
-     \/ \E p \in ProvIds : (\E v \in 1..2 : ProvPut(p, v)) \/ ProvDel(p)
-     \/ \E c \in ContIds : (\E v \in 1..2 : ContPut(c, v)) \/ ContDel(c)
+     \/ \E p \in ProvIds : ProvPut(p) \/ ProvDel(p)
+     \/ \E c \in ContIds : ContPut(c) \/ ContDel(c)
      \/ \E d \in DsIds : (\E k \in DsKinds : DsCreate(d, k)) \/ DsDelete(d)
      \/ Restart
 Spec == Init /\ [][Next]_rvars
